@@ -591,7 +591,31 @@ func checkLoadAllOrRebuild(c *Ctx, rule string) {
 		c.seeFn(funcName(goFn))
 		c.seeFn(funcName(waitFn))
 		joined := false
+		// the goroutine body and the same-package helpers it calls with the task's error
+		scan := append([]*ssa.Function{}, goFn.AnonFuncs...)
+		taskErrParam := map[*ssa.Function]map[int]bool{}
 		for _, an := range goFn.AnonFuncs {
+			for _, cl := range Calls(an) {
+				callee := cl.Instr.Common().StaticCallee()
+				if callee == nil || len(callee.Blocks) == 0 || !samePkgFn(callee, goFn) {
+					continue
+				}
+				for i, a := range cl.Instr.Common().Args {
+					for _, o := range origins(a) {
+						if o.Kind == "call" {
+							if c2, isC := o.Val.(*ssa.Call); isC && !c2.Common().IsInvoke() && c2.Common().StaticCallee() == nil {
+								if taskErrParam[callee] == nil {
+									taskErrParam[callee] = map[int]bool{}
+									scan = append(scan, callee)
+								}
+								taskErrParam[callee][i] = true
+							}
+						}
+					}
+				}
+			}
+		}
+		for _, an := range scan {
 			for _, b := range an.Blocks {
 				for _, ins := range b.Instrs {
 					st, ok := ins.(*ssa.Store)
@@ -610,6 +634,9 @@ func checkLoadAllOrRebuild(c *Ctx, rule string) {
 							if cv, isCall := o.Val.(*ssa.Call); isCall && o.Kind == "call" {
 								for _, a := range cv.Common().Args {
 									for _, o2 := range origins(a) {
+										if o2.Kind == "param" && taskErrParam[an][o2.Idx] {
+											joined = true
+										}
 										if o2.Kind == "call" {
 											if c2, isC := o2.Val.(*ssa.Call); isC && !c2.Common().IsInvoke() {
 												for _, o3 := range origins(c2.Common().Value) {
